@@ -616,6 +616,13 @@ pub fn classify(m: &Mismatch, p0: &Snap, p1: &Snap, op: &str, committed: &BTreeS
                     "descendant-readded-after-detached-proposal"
                 } else if surplus_is_cut_off {
                     "descendant-kept-after-committed-intermediate-cut-the-link"
+                } else if m.high
+                    && gone.iter().any(|g| !committed.contains(*g) && gone.iter().any(|c| committed.contains(*c) && p0.closure(c, false).contains(*g)))
+                {
+                    // the listed cut-link finding with the cut-off descendant gone as well: the
+                    // commit of an intermediate removed the only link, the descendant below it then
+                    // left (conflict, commit order) without being able to reach this entry
+                    "descendant-removed-after-committed-intermediate-cut-the-link"
                 } else if gone.iter().any(|d| !committed.contains(*d) && expired.contains(*d)) {
                     "descendant-expired-while-ancestor-stays"
                 } else if gone.iter().any(|d| !committed.contains(*d)) {
